@@ -15,9 +15,20 @@ ASSUME PrintT("@@L " \o ToJson([labels |-> [v \in Variants \cup CanonIds |-> Lab
 GenInit == Init /\ hist = << >> /\ gcper \in GCPers
 
 \* outcomes that differ from the code's only by the reading of a comparison at equality
+\* (computed only when some compared pair is equal)
+HasTie(batch) ==
+  \/ \E i \in 1..Len(batch) :
+        LET a == Defaulted(batch[i], now)
+        IN /\ ValidAlert(a)
+           /\ \/ a.end = now
+              \/ /\ a.fp \in DOMAIN store
+                 /\ LET o == store[a.fp]
+                    IN a.end = o.start \/ a.end = o.end \/ a.start = o.start \/ a.start = o.end \/ o.end = now
+  \/ (Limit > 0 /\ \E n \in DOMAIN buckets : buckets[n][1].pri = now)
 Alts(batch) ==
   LET proj(R) == [st |-> R.store, lim |-> R.limited, res |-> R.res]
-  IN {proj(RunBatch(batch, now, f)) : f \in [1..6 -> BOOLEAN]} \ {proj(RunBatch(batch, now, NoTies))}
+  IN IF ~HasTie(batch) THEN {}
+     ELSE {proj(RunBatch(batch, now, f)) : f \in [1..6 -> BOOLEAN]} \ {proj(RunBatch(batch, now, NoTies))}
 
 Obs == [e |-> last', t |-> now', st |-> store', lim |-> limited', gcper |-> gcper,
         vis  |-> Visible(store', sil', now'),
